@@ -121,7 +121,7 @@ class QuadricTensor(ProjectiveTensor, ABC):
 
         """
         m = outer(e.array, f.array)
-        m += m.T
+        m = m + np.swapaxes(m, -1, -2)
         return cls(m, normalize_matrix=True)
 
     def tangent(self, at: PointTensor) -> PlaneTensor:
